@@ -52,6 +52,11 @@ MUTANTS = [
   "\tfor _, fieldName := range srcFieldNames {\n\t\tif err := fn(rn.Field(fieldName)); err != nil {", "\tfor i := len(srcFieldNames) - 1; i >= 0; i-- {\n\t\tfieldName := srcFieldNames[i]\n\t\tif err := fn(rn.Field(fieldName)); err != nil {"),
  ("M23 LabelSetter: value no longer quoted", "kyaml/yaml/kfns.go",
   "func (s LabelSetter) Filter(rn *RNode) (*RNode, error) {\n\tv := NewStringRNode(s.Value)\n\t// some tools get confused about the type if labels are not quoted\n\tv.YNode().Style = yaml.SingleQuotedStyle", "func (s LabelSetter) Filter(rn *RNode) (*RNode, error) {\n\tv := NewStringRNode(s.Value)"),
+ ("M24 seeded C14-e PathSplitter: glue uses the previous raw piece", "kyaml/utils/pathsplitter.go",
+  "\t\tlast := len(res) - 1\n\t\tif strings.HasSuffix(res[last], `\\`) {\n\t\t\tres[last] = strings.TrimSuffix(res[last], `\\`) + delimiter + ps[i]",
+  "\t\tif prev := ps[i-1]; strings.HasSuffix(prev, `\\`) {\n\t\t\tres[len(res)-1] = strings.TrimSuffix(prev, `\\`) + delimiter + ps[i]"),
+ ("M25 seeded C14-f ElementSetter: drops empty sequences too", "kyaml/yaml/fns.go",
+  "\t\tif IsMissingOrNull(newNode) || IsEmptyMap(newNode) {\n\t\t\tcontinue\n\t\t}", "\t\tif newNode.IsNilOrEmpty() {\n\t\t\tcontinue\n\t\t}"),
  ("M15 getFilter: '-' treated as index 0", "kyaml/yaml/fns.go",
   "\t\treturn GetElementByIndex(-1), nil", "\t\treturn GetElementByIndex(0), nil"),
 ]
@@ -93,7 +98,7 @@ def run_one(name, rel, old, new):
         classes = {}
         for v in meta["violations"]:
             classes[v["class"]] = classes.get(v["class"], 0) + 1
-        new_classes = {k: v for k, v in classes.items() if k != "C14/panic-last-on-empty"}
+        new_classes = {k: v for k, v in classes.items() if k != "C14/none"}
         caught = bool(mism) or bool(new_classes) or not ok
         return name, "%s  mismatches=%d/%d  oracle=%s" % ("CAUGHT" if caught else "MISSED", len(mism), meta["model_cases"], new_classes)
     finally:
